@@ -407,7 +407,7 @@ def run_prison(ctx, cases, label=""):
 
 def check_c53(ctx):
     q = ctx.tier == "quick"
-    mcs = [(2, 1, 0, 9, 5), (2, 2, 1, 9, 5), (2, 0, 1, 9, 5)] if q else \
+    mcs = [(2, 1, 0, 10, 5), (2, 2, 1, 10, 5), (2, 0, 1, 10, 5)] if q else \
           [(2, th, s, 12, 6) for th in (0, 1, 2) for s in (0, 1)] + [(1, th, s, 17, 7) for th in (0, 1, 2) for s in (0, 1)]
     for nk, th, s, maxt, maxarr in mcs:
         d = {"NKEYS": nk, "TH": th, "P": 3, "J": 2, "S": s, "MAXT": maxt, "MAXARR": maxarr}
@@ -416,14 +416,14 @@ def check_c53(ctx):
     cases = []
     for th in ((2,) if q else (0, 1, 2)):
         d = {"NKEYS": 2, "TH": th, "P": 3, "J": 2, "MAXT": 26, "MAXARR": 16}
-        g = ctx.tlc(SPEC, "GenPrison", "Prison_Gen.cfg", mode="sim", defines=d, sim_num=60 if q else 150,
+        g = ctx.tlc(SPEC, "GenPrison", "Prison_Gen.cfg", mode="sim", defines=d, sim_num=120 if q else 150,
                     sim_depth=60, count=False, timeout=600)
         if not g.ok or not g.cases:
             raise vlib.MachineryError("GenPrison failed: %s %s" % (g.error or g.violation, g.out[-500:]))
         cases += [prison_case(c["th"], c["p"], c["j"], c["arr"]) for c in g.cases if c["arr"]]
-    cases += [prison_case(th, 3, 2, arr) for th, arr in seeded_schedules(ctx, 60 if q else 400, 1)]
+    cases += [prison_case(th, 3, 2, arr) for th, arr in seeded_schedules(ctx, 150 if q else 400, 1)]
     # a few schedules with the periods exactly as the rule file gives them (seconds): binds the unit conversion
-    cases += [prison_case(th, 3, 3, arr, kind="real") for th, arr in seeded_schedules(ctx, 12 if q else 60, 2, maxt=26)]
+    cases += [prison_case(th, 3, 3, arr, kind="real") for th, arr in seeded_schedules(ctx, 20 if q else 60, 2, maxt=26)]
     ctx.cov["constants"]["trace"] = {"tick_us": TICK_US, "CheckPeriod_us": 3 * TICK_US + TICK_US // 2, "StayPeriod_us": 2 * TICK_US,
                                      "slack_us": SLACK_US, "wide_us": WIDE_US, "real": "CheckPeriod = StayPeriod = 1 s, tick 300 ms"}
     ctx.cov["rule"] = ("TLC checks exhaustively that the counter/jail mechanism satisfies Layer P (never denied with <= "
